@@ -117,10 +117,14 @@ func run(c *fw.Ctx, idx int) {
 	e.alloc.Descend = r.Bool()
 
 	nUniverse := r.Range(1, 10) // peers that exist at all (pool prefix)
+	big := r.Chance(1, 8)       // a cluster of a size where sorting algorithms change their ways
+	if big {
+		nUniverse = r.Range(13, 23) // the peer pool has 24 identities; one beyond the universe is used as a stranger
+	}
 	in := &mon.AllocInput{Members: map[peer.ID]bool{}, Metrics: map[peer.ID]mon.MetricState{}, Excluded: map[peer.ID]bool{}, Descend: e.alloc.Descend}
 	var members []peer.ID
 	for i := 0; i < nUniverse; i++ {
-		if i < 8 && !r.Chance(1, 6) {
+		if (i < 8 || big) && !r.Chance(1, 6) {
 			in.Members[gen.Peer(i)] = true
 			members = append(members, gen.Peer(i))
 		}
@@ -143,6 +147,9 @@ func run(c *fw.Ctx, idx int) {
 		default:
 			ms.Kind = "valid"
 			ms.Value = valueRange[r.Intn(len(valueRange))]
+			if big && idx%2 == 0 {
+				ms.Value = uint64(r.Intn(100000)) // hardly any ties: the strategy's order is fully determined
+			}
 		}
 		in.Metrics[p] = ms
 		kinds[ms.Kind] = true
